@@ -15,7 +15,8 @@ RULE = (
     "case = (pre-existing dict over a 4-key universe, batch op list of set/del/get/"
     "contains/copy with <=12 ops, do_deletes); every case is executed once per exit "
     "point: normal exit and an exception raised before op i for EVERY i in 0..len "
-    "(enumerated, counted in counters.exits). Oracle: last-action model per key. "
+    "(enumerated, counted in counters.exits), the exception being an Exception subclass, "
+    "a bare BaseException subclass or KeyboardInterrupt. Oracle: last-action model per key. "
     "Non-trivial = some key has set-after-delete or delete-after-set AND a key is "
     "read (get/contains) after its latest action was a delete; distinct = distinct "
     "canonical JSON of the case."
@@ -43,6 +44,7 @@ def strategy(tier):
             "base": st.lists(st.tuples(key, val), max_size=4, unique_by=lambda kv: kv[0]),
             "ops": st.lists(op, max_size=12),
             "do_deletes": st.booleans(),
+            "exc": st.integers(0, 2),
         }
     )
 
@@ -63,7 +65,8 @@ def exhaustive(tier):
             for seq in itertools.product(ops, repeat=length):
                 for base in bases:
                     for dd in (False, True):
-                        yield {"base": base, "ops": list(seq), "do_deletes": dd}
+                        yield {"base": base, "ops": list(seq), "do_deletes": dd,
+                               "exc": (length + len(base)) % 3}
 
     yield (f"all op sequences of length<={n} over 2 keys x 4 pre-existing dbs x do_deletes", gen())
 
@@ -92,13 +95,23 @@ def run_case(case):
     info.label("copy-in-batch", any(o[0] == "copy" for o in ops))
     info.nontrivial = mixed and read_after_del
 
+    exc_kind = case.get("exc", 0)
+    info.label(["exit-by-Exception", "exit-by-BaseException", "exit-by-KeyboardInterrupt"][exc_kind])
     for exit_at in [None] + list(range(len(ops) + 1)):
-        _run_once(base, ops, dd, exit_at)
+        _run_once(base, ops, dd, exit_at, exc_kind)
         info.count("exits")
     return info
 
 
-def _run_once(base, ops, dd, exit_at):
+class _BaseAbort(BaseException):
+    """Leaves the block by an exception that is not an Exception subclass."""
+
+
+def _make_exc(kind):
+    return [Abort("injected"), _BaseAbort("injected"), KeyboardInterrupt("injected")][kind]
+
+
+def _run_once(base, ops, dd, exit_at, exc_kind=0):
     wrapped = dict(base)
     s = impl("construct", ScratchDB, wrapped)
     cm = impl("batch-open", s.batch_commit, do_deletes=dd)
@@ -148,7 +161,7 @@ def _run_once(base, ops, dd, exit_at):
     if exit_at == len(ops):
         aborted = True
     if aborted:
-        cm_exit("batch-exit", cm, Abort("injected"))
+        cm_exit("batch-exit", cm, _make_exc(exc_kind))
         expect_eq("abort-leaves-wrapped-unchanged", wrapped, base,
                   f"wrapped db after exceptional exit before op {exit_at}")
         final = base
